@@ -31,14 +31,13 @@ theorem decBody_enc_simple (f : Frame) (rest : Bytes) (hwf : wf f = true)
     cases c
     case maxStreams uni n =>
       have hwf : n ≤ maxStreamsLimit := by simp only [wf, wfCtl] at hwf; exact of_decide_eq_true hwf
-      simp only [maxStreamsLimit] at hwf
+      have hm : maxStreamsLimit < 2 ^ 62 := by decide
       simp only [Frame.type, decBody, encBody]
-      rw [pVarint_enc _ _ (by omega), Res.bind_ok]
-      simp [maxStreamsLimit]; omega
+      rw [pVarint_enc _ _ (by omega), Res.bind_ok, if_neg (by omega)]
     all_goals
-      simp only [wf, wfCtl, v62, Bool.and_eq_true, decide_eq_true_eq, maxStreamsLimit] at hwf <;>
+      simp only [wf, wfCtl, v62, Bool.and_eq_true, decide_eq_true_eq] at hwf <;>
       simp only [Frame.type, decBody, encBody, List.append_assoc] <;>
-      simp [pVarint_enc, hwf, maxStreamsLimit] <;> (try omega)
+      simp [pVarint_enc, hwf]
   case addAddress seq a tire nat =>
     simp only [wf, v62, wfAddr, Bool.and_eq_true, decide_eq_true_eq] at hwf
     obtain ⟨⟨⟨h1, h2, h3⟩, h4⟩, h5⟩ := hwf
